@@ -111,6 +111,15 @@ pub fn layer_ex(l: &LayerSpec, idx: usize, names: usize) -> Ex {
 			Ex::Bin(BinOp::Ge, bx(std_call("length", vec![std_call("objectFieldsAll", vec![Ex::SelfE])])), bx(num(0.0))),
 			None,
 		)),
+		// an invariant over a field that a later layer may override: `a`, when present, is not a boolean
+		4 => ms.push(Member::Assert(
+			Ex::If(
+				bx(std_call("objectHasAll", vec![Ex::SelfE, s(NAMES[0])])),
+				bx(Ex::Bin(BinOp::Ne, bx(std_call("type", vec![Ex::Dot(bx(Ex::SelfE), NAMES[0].to_owned())])), bx(s("boolean")))),
+				Some(bx(Ex::True)),
+			),
+			Some(s(&format!("I{idx}"))),
+		)),
 		_ => {}
 	}
 	Ex::Obj(ms)
@@ -186,6 +195,39 @@ pub fn probes(names: usize) -> Vec<(String, Box<dyn Fn(Ex) -> Ex>)> {
 	v.push(("o + {} manifest".into(), Box::new(|o| Ex::Bin(BinOp::Add, bx(o), bx(Ex::Obj(vec![]))))));
 	v.push(("{} + o manifest".into(), Box::new(|o| Ex::Bin(BinOp::Add, bx(Ex::Obj(vec![])), bx(o)))));
 	v.push(("type".into(), Box::new(|o| std_call("type", vec![o]))));
+	// history: the object is read first (which runs and remembers its assertions) and extended afterwards; the
+	// extension overrides `a` with a boolean, which the invariant of assertion kind 4 forbids
+	v.push((
+		"local b = o; [type of b.a if present, (b + {a: true}).a, (b {a: true}).a]".into(),
+		Box::new(|o| {
+			let a = NAMES[0];
+			let b = || var("b");
+			let pre = Ex::If(bx(std_call("objectHasAll", vec![b(), s(a)])), bx(std_call("type", vec![Ex::Dot(bx(b()), a.to_owned())])), Some(bx(s("absent"))));
+			let over = Ex::Obj(vec![field(a, false, Vis::Normal, Ex::True)]);
+			let plus = Ex::Dot(bx(Ex::Bin(BinOp::Add, bx(b()), bx(over.clone()))), a.to_owned());
+			let ext = Ex::Dot(bx(Ex::ObjExt(bx(b()), bx(over))), a.to_owned());
+			Ex::Local(vec![Bind::Var("b".into(), o)], bx(Ex::Arr(vec![pre, plus, ext])))
+		}),
+	));
+	// one mixin value (with an object-level local and a super reference) applied twice in one chain
+	v.push((
+		"local m = {local l = 1, p: (if 'p' in super then super.p else 0) + l}; (o + m + m).p".into(),
+		Box::new(|o| {
+			let body = Ex::Bin(BinOp::Add, bx(Ex::If(bx(Ex::InSuper(bx(s("p")))), bx(Ex::SuperDot("p".into())), Some(bx(num(0.0))))), bx(var("l")));
+			let m = Ex::Obj(vec![Member::Local(Bind::Var("l".into(), num(1.0))), field("p", false, Vis::Normal, body)]);
+			let sum = Ex::Bin(BinOp::Add, bx(Ex::Bin(BinOp::Add, bx(o), bx(var("m")))), bx(var("m")));
+			Ex::Local(vec![Bind::Var("m".into(), m)], bx(Ex::Dot(bx(sum), "p".into())))
+		}),
+	));
+	v.push((
+		"local m = {local l = ['M'], q+: l}; (o + {q: []} + m + m + m).q".into(),
+		Box::new(|o| {
+			let m = Ex::Obj(vec![Member::Local(Bind::Var("l".into(), Ex::Arr(vec![s("M")]))), field("q", true, Vis::Normal, var("l"))]);
+			let base = Ex::Bin(BinOp::Add, bx(o), bx(Ex::Obj(vec![field("q", false, Vis::Normal, Ex::Arr(vec![]))])));
+			let sum = Ex::Bin(BinOp::Add, bx(Ex::Bin(BinOp::Add, bx(Ex::Bin(BinOp::Add, bx(base), bx(var("m")))), bx(var("m")))), bx(var("m")));
+			Ex::Local(vec![Bind::Var("m".into(), m)], bx(Ex::Dot(bx(sum), "q".into())))
+		}),
+	));
 	v
 }
 
@@ -287,7 +329,7 @@ pub fn check(run: &Run, chain: &Chain) -> CaseOut {
 fn gen_layer(src: &mut Src, names: usize, first: bool, kinds: &[Kind]) -> LayerSpec {
 	LayerSpec {
 		kinds: (0..names).map(|_| kinds[src.weighted(&vec![1u32; kinds.len()])]).collect(),
-		assertion: src.weighted(&[8, 1, 1, 2]) as u8,
+		assertion: src.weighted(&[8, 1, 1, 2, 3]) as u8,
 		flavour: src.weighted(&[4, 2, 1]) as u8,
 		sugar: !first && src.chance(1, 3),
 		remove_before: if !first && src.chance(1, 6) { Some(src.below(names)) } else { None },
